@@ -219,8 +219,18 @@ impl<R: Read, TSpec> TagIterator<R, TSpec>
     }
 
     #[inline(always)]
-    fn current_offset(&self) -> usize {
+    pub(crate) fn current_offset(&self) -> usize {
         self.buffer_offset.unwrap_or(0) + self.internal_buffer_position
+    }
+
+    #[inline(always)]
+    pub(crate) fn has_queued_items(&self) -> bool {
+        !self.emission_queue.is_empty()
+    }
+
+    #[inline(always)]
+    pub(crate) fn buffers_tag(&self, tag_id: u64) -> bool {
+        self.tag_ids_to_buffer.contains(&tag_id)
     }
 
     fn private_read(&mut self, internal_buffer_start: usize) -> Result<bool, TagIteratorError> {
